@@ -76,7 +76,7 @@ func rejectOnFailure(fn *ssa.Function, v ssa.Value) a3Result {
 			propagated := false
 			if v.Referrers() != nil {
 				for _, r := range *v.Referrers() {
-					if ret, ok := r.(*ssa.Return); ok && idx >= 0 && idx < len(ret.Results) && ret.Results[idx] == v {
+					if ret, ok := r.(*ssa.Return); ok && idx >= 0 && idx < len(retResults(ret)) && retResults(ret)[idx] == v {
 						propagated = true
 					}
 					// wrapped: errcode.Wrap(v) etc. followed by a test is handled by the caller
@@ -109,12 +109,12 @@ func rejectOnFailure(fn *ssa.Function, v ssa.Value) a3Result {
 func isSuccessReturnOnReject(r *ssa.Return, v ssa.Value) bool {
 	fn := r.Parent()
 	idx := errResultIndex(fn.Signature)
-	if idx >= 0 && idx < len(r.Results) && r.Results[idx] == v && isErrorType(v.Type()) {
+	if idx >= 0 && idx < len(retResults(r)) && retResults(r)[idx] == v && isErrorType(v.Type()) {
 		return false
 	}
 	if idx < 0 {
 		// functions without error result: a bool result false is the rejection
-		for i, res := range r.Results {
+		for i, res := range retResults(r) {
 			if isBoolType(fn.Signature.Results().At(i).Type()) {
 				if b, ok := constBool(res); ok && !b {
 					return false
@@ -122,7 +122,7 @@ func isSuccessReturnOnReject(r *ssa.Return, v ssa.Value) bool {
 			}
 		}
 		// nil pointer result counts as rejection too
-		for _, res := range r.Results {
+		for _, res := range retResults(r) {
 			if isNilConst(res) {
 				return false
 			}
@@ -146,10 +146,10 @@ func bypassReturns(fn *ssa.Function, accept []edge, verdicts []ssa.Value) []*ssa
 		if !r[ret.Block()] {
 			continue
 		}
-		if idx >= 0 && idx < len(ret.Results) {
+		if idx >= 0 && idx < len(retResults(ret)) {
 			tail := false
 			for _, v := range verdicts {
-				if ret.Results[idx] == v {
+				if retResults(ret)[idx] == v {
 					tail = true
 				}
 			}
